@@ -4,7 +4,7 @@
 # usage: legit.sh [name-substring ...]
 cd /verif
 rc=0
-: > /verif/legit/RESULTS.txt.tmp
+R=/verif/target/legit-results.$$; ONE=/verif/target/legit-one.$$; : > $R
 for d in legit/*/; do
   id=$(basename "$d")
   if [ $# -gt 0 ]; then hit=0; for p in "$@"; do case "$id" in *"$p"*) hit=1;; esac; done; [ $hit = 1 ] || continue; fi
@@ -15,8 +15,9 @@ for d in legit/*/; do
     *c14*) props="C14 C13 C12";;
     *) props="C09 C12 C13 C14";;
   esac
-  SENS_SCRATCH=${SENS_SCRATCH:-/tmp/legit-scratch} scripts/ok_scratch.sh --out /verif/target/legit-one.txt "/verif/$d/patch.diff" -- $props > /dev/null 2>&1 || rc=1
-  sed "s#^[^ ]* #$id #" /verif/target/legit-one.txt | tee -a /verif/legit/RESULTS.txt.tmp
+  SENS_SCRATCH=${SENS_SCRATCH:-/tmp/legit-scratch} scripts/ok_scratch.sh --out $ONE "/verif/$d/patch.diff" -- $props > /dev/null 2>&1 || rc=1
+  sed "s#^[^ ]* #$id #" $ONE | tee -a $R
 done
-mv /verif/legit/RESULTS.txt.tmp /verif/legit/RESULTS.txt
+# a filtered run does not replace the full results file
+if [ $# -eq 0 ]; then mv $R /verif/legit/RESULTS.txt; else cat $R; rm -f $R; fi; rm -f $ONE
 exit $rc
